@@ -360,6 +360,38 @@ func selfDeadlockCases(d *coll.Desc) []dlCase {
 			}
 		}
 	}
+	// interface-valued structures may hold values of any type: with a stored value that Go cannot
+	// compare (a slice), an operation that compares values panics at run time - inside its critical
+	// section
+	if d.ValT != nil && d.ValT.Kind() == reflect.Interface && d.KeyT != nil && (d.Family == "map" || d.Family == "linkedmap") {
+		k0 := coll.KeysNZ(d, 1)[0]
+		unc := reflect.ValueOf([]int{7})
+		pf := []coll.Op{coll.MkOp("Put", k0, unc)}
+		for _, m := range coll.ExportedMethods(obj) {
+			takes := false
+			for i := 1; i < m.Type.NumIn(); i++ {
+				if m.Type.In(i) == d.ValT && !(i == 1 && m.Type.In(i) == d.KeyT) {
+					takes = true
+				}
+			}
+			if !takes {
+				continue
+			}
+			sets := coll.ArgSets(d, obj, m, 1, 1)
+			if len(sets) == 0 {
+				continue
+			}
+			a := append([]reflect.Value{}, sets[0]...)
+			for i := range a {
+				if m.Type.In(i+1) == d.ValT && !(i == 0 && d.KeyT == d.ValT) {
+					a[i] = unc
+				}
+			}
+			o := coll.MkOp(m.Name, a...)
+			o.Label = m.Name + "(… a slice value …)"
+			out = append(out, dlCase{d, pf, o, false})
+		}
+	}
 	return out
 }
 
@@ -383,6 +415,11 @@ func runSelfDeadlock(c *evid.Ctx, dc dlCase) {
 		// fresh args for stateful arguments (streams)
 		x.Spawn("T0", func() {
 			res = coll.Apply(obj, op)
+			// whatever the operation did - returned or panicked (Apply recovers, as the library's
+			// comments ask callers to) - the structure's lock must be free again
+			if hasMethod(dc.desc, "Size") {
+				coll.Apply(obj, coll.MkOp("Size"))
+			}
 		})
 		return func() string {
 			if x.Deadlock {
